@@ -4,6 +4,7 @@ import Verif.Model.DS.OrderedMap
 import Verif.Model.DS.BiMap
 import Verif.Spec.DS
 import Verif.Model.DS.IntervalST
+import Verif.Model.DS.PersistentSet
 /-! Driver for stream `ds` (C51): one line = one operation sequence on one structure.
     `ds <kind> <init> op|op|…  =>  obs;obs;…`  The driver runs the code-shaped model *and* the spec. -/
 open Verif.Proto Verif.DS Verif.Model.DS
@@ -189,6 +190,45 @@ def judgeBm (init : String) (opsS go : String) : Verdict :=
         weaveIns ops (regroupBm opsNoIns ((Verif.Spec.DS.BM.run ([] : List (Int × Int)) popsNoIns).map showBmObs))
       else regroupBm ops ((Verif.Spec.DS.BM.run ([] : List (Int × Int)) pops).map showBmObs)
     verdict "bm" ops go model spec ["bm.init." ++ init]
+
+/-! ### persistent set -/
+
+def parsePsOp (a : List String) : Option (PSOp Int) :=
+  let reg (s : String) : Option Nat := s.toNat?.map (· % 4)
+  let regOrNil (s : String) : Option (Option Nat) := if s == "nil" then some none else (reg s).map some
+  match a with
+  | ["mk", t, p] => do some (.mk (← reg t) (← regOrNil p))
+  | ["clone", t, r] => do some (.clone (← reg t) (← reg r))
+  | ["add", r, x] => do some (.add (← reg r) (← x.toInt?))
+  | ["has", r, x] => do some (.has (← reg r) (← x.toInt?))
+  | ["each", r] => do some (.each (← reg r))
+  | ["eache", r, x] => do let x ← x.toInt?; some (.eachErr (← reg r) (fun y => y == x))
+  | ["addint", r, a, b] => do some (.addInter (← reg r) (← regOrNil a) (← regOrNil b))
+  | ["empty", r] => do some (.isEmpty (← reg r))
+  | _ => none
+
+def showPsObs : PSObs Int → String
+  | .done => "ok"
+  | .goPanic => "panic"
+  | .bool b => b01 b
+  | .items l => showInts l
+  | .itemsErr l stopped => showInts l ++ (if stopped then "!" else "ok")
+
+def judgePs (opsS go : String) : Verdict :=
+  let ops := splitOps opsS
+  match ops.mapM parsePsOp with
+  | none => .skip "bad-op"
+  | some pops =>
+    let M := PersistentSet.items Int
+    let S := Verif.Spec.DS.PS.items Int
+    let model := (M.run M.init pops).map showPsObs
+    let spec := (S.run S.init pops).map showPsObs
+    -- a nil receiver is outside the spec: the spec machine reports it as `panic` too, and a Go panic
+    -- that the spec also reports is not a violation
+    let goObs := splitObs go
+    match firstDiff spec goObs with
+    | some d => .violation ("ps-" ++ (ops.getD d.1 []).headD "?" ++ "-wrong") (describe ops d) (tagsOf "ps" ops goObs)
+    | none => verdict "ps" ops go model spec []
 
 /-! ### interval tree (shape is random: relation against the spec, exact against the model on the
      dumped shape) -/
@@ -393,6 +433,7 @@ def judge (op : List String) (go : String) : Verdict :=
   | ["ds", "om", init, ops] => DsDrv.judgeOm init ops go
   | ["ds", "bm", init, ops] => DsDrv.judgeBm init ops go
   | ["ds", "ist", _, ops] => DsDrv.judgeIst ops go
+  | ["ds", "ps", _, ops] => DsDrv.judgePs ops go
   | ["ds", _, _, _] => .skip "kind-not-modelled-yet"
   | _ => .skip "unknown-op"
 
